@@ -13,15 +13,15 @@ use crate::json::J;
 use crate::model::*;
 use crate::rng::Rng;
 
-pub const RULE: &str = "case = one score matrix (f32 or u8; 32 or 16 columns) built through the public StripedScores API, possibly in a buffer that previously held more rows of larger values: row counts {0,1,2,3,7,8,9,31,32,33,255,256,257,1000,...,65536 for u8}; value families random / all-negative / all-equal / +-inf / signed zeros / planted strict maximum in every column and first, last, random row / duplicated maxima / all 0 / all 255. The declared position count of a hand-built matrix (all cells, fewer, zero, or some for a matrix without rows) must not matter: the definitions are over cells. Column counts whose rows leave alignment padding (f32 x 1/4/5 columns, u8 x 16) are included for the arms that accept them: padding is not a cell. Every arm (generic, sse2, avx2, dispatch forced to each arm and unforced, StripedScores::{max,argmax,threshold}, Scores::{max,argmax,threshold}) is compared with a scalar fold over ALL cells: max value, matrix[argmax] == max, threshold(t) == set of cells >= t (each once), empty => None, agreement across arms. Second family: real scorings with a -inf wildcard column: every cell past the last valid position must be -inf and the max must be the best valid score. Non-trivial = matrix with >= 1 row; distinct = distinct (type, C, rows, cell contents).";
+pub const RULE: &str = "case = one score matrix (f32 or u8; 32 or 16 columns) built through the public StripedScores API, possibly in a buffer that previously held more rows of larger values: row counts {0,1,2,3,7,8,9,31,32,33,255,256,257,1000,...,65536 for u8}; value families random / all-negative / all-equal / +-inf / signed zeros / planted strict maximum in every column and first, last, random row / duplicated maxima / all 0 / all 255. The declared position count of a hand-built matrix (all cells, fewer, zero, or some for a matrix without rows) must not matter: the definitions are over cells. Column counts above 32 (48, 64) on the generic and SSE2 arms. Column counts whose rows leave alignment padding (f32 x 1/4/5 columns, u8 x 16) are included for the arms that accept them: padding is not a cell. Every arm (generic, sse2, avx2, dispatch forced to each arm and unforced, StripedScores::{max,argmax,threshold}, Scores::{max,argmax,threshold}) is compared with a scalar fold over ALL cells: max value, matrix[argmax] == max, threshold(t) == set of cells >= t (each once), empty => None, agreement across arms. Second family: real scorings with a -inf wildcard column: every cell past the last valid position must be -inf and the max must be the best valid score. Non-trivial = matrix with >= 1 row; distinct = distinct (type, C, rows, cell contents).";
 
 pub const REQUIRED: &[&str] = &[
     "f32.c32.generic", "f32.c32.sse2", "f32.c32.avx2", "f32.c32.dispatch[generic]", "f32.c32.dispatch[sse2]",
     "f32.c32.dispatch[avx2]", "f32.c32.dispatch[auto]", "f32.c32.StripedScores", "f32.c16.generic", "f32.c16.sse2",
     "u8.c32.generic", "u8.c32.sse2", "u8.c32.avx2", "u8.c32.dispatch[generic]", "u8.c32.dispatch[sse2]",
     "u8.c32.dispatch[avx2]", "u8.c32.dispatch[auto]", "u8.c32.StripedScores", "Scores", "family.all_negative",
-    "family.planted", "family.duplicated_max", "family.infinities", "family.all_equal", "rows.0", "rows.1", "rows>256",
-    "rows>32768", "reused_larger_buffer", "declared_positions.zero", "declared_positions.no_rows", "declared_positions.fewer_than_cells", "f32.padded_rows.generic", "u8.padded_rows.generic", "real.padding_cells_checked", "real.finite_max", "real.threshold_checked", "dispatch_forced.generic",
+    "family.planted", "family.sparse_tiny_maximum", "history.cells_rewritten_between_queries", "family.duplicated_max", "family.infinities", "family.all_equal", "rows.0", "rows.1", "rows>256",
+    "rows>32768", "reused_larger_buffer", "declared_positions.zero", "declared_positions.no_rows", "declared_positions.fewer_than_cells", "f32.padded_rows.generic", "f32.wide_rows.sse2", "u8.padded_rows.generic", "real.padding_cells_checked", "real.finite_max", "real.threshold_checked", "dispatch_forced.generic",
     "dispatch_forced.sse2", "dispatch_forced.avx2",
 ];
 
@@ -448,6 +448,24 @@ fn case_f32_c16(case: u64, rng: &mut Rng, rep: &mut Report, rows: usize, family:
     rep.cover("f32.c16.sse2");
 }
 
+/// column counts above 32 (any multiple of 16 is accepted by the generic and SSE2 arms)
+fn case_f32_wide<C: PositiveLength + lightmotif::num::MultipleOf<U16>>(case: u64, rng: &mut Rng, rep: &mut Report, rows: usize, family: usize, plant_col: usize) {
+    let (s, fam, planted) = fill_f32::<C>(rng, rep, rows, family, plant_col);
+    rep.eval();
+    if rows > 0 {
+        rep.nontrivial(digest_of(&s));
+    }
+    let cells: Vec<f32> = s.matrix().iter().flat_map(|r| r.iter().cloned()).collect();
+    let ts = thresholds_for(rng, &cells, f32::NEG_INFINITY, 1.0e31);
+    let desc = describe(&s, fam, planted);
+    let mut agreed = None;
+    let g = Pipeline::<Dna, _>::generic();
+    judge(case, rep, &s, &ts, guard(|| via_pipeline("generic", &g, &s, &ts)), "generic", &desc, &mut agreed);
+    let p = Pipeline::<Dna, _>::sse2().unwrap();
+    judge(case, rep, &s, &ts, guard(|| via_pipeline("sse2", &p, &s, &ts)), "sse2", &desc, &mut agreed);
+    rep.cover("f32.wide_rows.sse2");
+}
+
 /// column counts whose rows do not fill the 32-byte aligned row (alignment padding after the last
 /// column): only the generic arm accepts them. The padding may hold anything (here: what a larger
 /// matrix of larger values left there) and is not a cell.
@@ -524,6 +542,21 @@ fn case_u8(case: u64, rng: &mut Rng, rep: &mut Report, rows: usize, family: usiz
             s.matrix_mut().fill(255);
             rep.cover("family.all_equal");
             "all_255"
+        }
+        3 | 4 if rng.chance(0.25) => {
+            // almost everything 0: the maximum is a small number (1, 2, 3) held by a handful of cells,
+            // whole columns are all-zero (no 16-bit / 8-bit packing trick may confuse 0 with 1)
+            s.matrix_mut().fill(0);
+            let top = rng.range(1, 3) as u8;
+            if rows > 0 {
+                for _ in 0..rng.range(1, 4) {
+                    let r = rng.below(rows);
+                    let col = if rng.chance(0.5) { rng.below(8) } else { rng.below(32) };
+                    s.matrix_mut()[r][col] = top;
+                }
+            }
+            rep.cover("family.sparse_tiny_maximum");
+            "sparse_tiny_maximum"
         }
         3 | 4 => {
             let hi = rng.range(1, 200);
@@ -609,6 +642,42 @@ fn case_u8(case: u64, rng: &mut Rng, rep: &mut Report, rows: usize, family: usiz
         unforce();
         judge(case, rep, &s, &ts, r, "StripedScores", &desc, &mut agreed);
         rep.cover("u8.c32.StripedScores");
+    }
+    // the same OBJECT asked again after its cells were rewritten in place (matrix_mut / as_mut, no
+    // resize) and a clone rewritten after the original answered: nothing may be remembered
+    if rows > 0 && rows <= 2000 {
+        let mut s2 = s.clone();
+        let _ = guard(|| (s2.max(), s2.argmax()));
+        let (r, c) = (rng.below(rows), rng.below(32));
+        let cur_max = s2.matrix().iter().flat_map(|x| x.iter().cloned()).max().unwrap_or(0);
+        let raise = cur_max < 255 && rng.chance(0.5);
+        if raise {
+            s2.matrix_mut()[r][c] = cur_max + 1;
+        } else {
+            // lower every cell holding the maximum
+            let m: &mut lightmotif::dense::DenseMatrix<u8, U32> = s2.as_mut();
+            for i in 0..rows {
+                for j in 0..32 {
+                    if m[i][j] == cur_max {
+                        m[i][j] = cur_max / 2;
+                    }
+                }
+            }
+        }
+        let mut s3 = s2.clone();
+        s3.matrix_mut()[rows - 1][31] = 255;
+        for (label, obj) in [("rewritten in place", &s2), ("clone rewritten", &s3)] {
+            let d2 = describe(obj, "history", None);
+            let mut agreed2 = None;
+            let r = guard(|| ArmResult {
+                name: format!("StripedScores {}", label),
+                max: obj.max(),
+                argmax: obj.argmax().map(|o| decode(o, rows)),
+                thresholds: ts.iter().map(|&t| obj.threshold(t).into_iter().map(|o| decode(o, rows)).collect()).collect(),
+            });
+            judge(case, rep, obj, &ts, r, "StripedScores (object history)", &d2, &mut agreed2);
+        }
+        rep.cover("history.cells_rewritten_between_queries");
     }
     rep.sample(|| J::obj().set("case", J::UInt(case)).set("matrix", desc.clone()));
 }
@@ -751,9 +820,11 @@ fn case_real(case: u64, rng: &mut Rng, rep: &mut Report) {
 
 /// one synthetic matrix through every arm (used by the memory-checker workload)
 pub fn synthetic_case(case: u64, rng: &mut Rng, rep: &mut Report, rows: usize, family: usize, plant_col: usize) {
-    match rng.below(3) {
+    match rng.below(5) {
         0 => case_f32_c32(case, rng, rep, rows, family, plant_col),
         1 => case_f32_c16(case, rng, rep, rows, family, plant_col),
+        2 => case_f32_wide::<lightmotif::num::U48>(case, rng, rep, rows, family, plant_col),
+        3 => case_f32_wide::<lightmotif::num::U64>(case, rng, rep, rows, family, plant_col),
         _ => case_u8(case, rng, rep, rows, family, plant_col),
     }
 }
@@ -790,6 +861,13 @@ pub fn run(cfg: &Config) -> Report {
                     _ => case_f32_padded::<lightmotif::num::U5>(case, rng, rep, rows.min(1000), fam, col),
                 },
                 4 => case_u8_c16(case, rng, rep, rows.min(1000)),
+                5 if rng.chance(0.5) => {
+                    if rng.chance(0.5) {
+                        case_f32_wide::<lightmotif::num::U48>(case, rng, rep, rows.min(1000), fam, col)
+                    } else {
+                        case_f32_wide::<lightmotif::num::U64>(case, rng, rep, rows.min(1000), fam, col)
+                    }
+                }
                 _ => case_u8(case, rng, rep, rows, fam, col),
             }
         } else {
